@@ -127,5 +127,8 @@ cfg_any_client! {
     pub mod clients;
 }
 
+#[cfg(rsdns_verif)]
+pub mod verif_hooks;
+
 #[doc(inline)]
 pub use errors::{Error, Result};
